@@ -2,7 +2,8 @@
    Statements only; proofs live in Pubkeys/CacheProofs.v.  Impl = Pubkeys/CacheModel.v (explicit heap of
    PubkeyCache objects, the repaired code), Spec = Pubkeys/CacheSpec.v (each handle denotes a list of pubkeys). *)
 From Coq Require Import NArith List Arith.
-From V Require Import Base.Outcome Pubkeys.CacheSpec Pubkeys.CacheModel Pubkeys.CacheProofs.
+From V Require Import Base.Outcome Pubkeys.CacheSpec Pubkeys.CacheModel Pubkeys.CacheProofs
+  Pubkeys.DepositModel Pubkeys.DepositProofs.
 Import ListNotations.
 
 (* Observational refinement: for EVERY sequence of AddValidator / Pubkey / ValidatorIndex calls on any number
@@ -89,6 +90,52 @@ Theorem C16_add_terminates : forall hp h i p fuel, wf hp -> h < length hp -> dep
   (exists r, add_validator fuel hp h i p = Ok r) \/ add_validator fuel hp h i p = Err.
 Proof. exact add_terminates. Qed.
 Print Assumptions C16_add_terminates.
+
+(* ---- deposit level (phase0.ProcessDeposit driving the cache of an EpochsContext; DepositModel.v) ----
+   For every sequence of context copies (state.CopyState + epc.Clone: the copy shares the handle) and deposits,
+   from any duplicate-free genesis registry: ProcessDeposit deciding "exists" through the cache and storing the
+   returned handle back (Impl) yields the same results and the same registries as the registry-driven Spec. *)
+Theorem C16_deposit_refines : forall (l : list pubkey) (ops : list dop), NoDup l ->
+  drun istate i_step (known_by_cache istate i_step) (di_init l) ops =
+  drun sstate s_step (fun _ _ r p => known_by_registry r p) (ds_init l) ops.
+Proof. exact deposit_refines. Qed.
+Print Assumptions C16_deposit_refines.
+
+(* the cache never refuses the add of a deposit (no error, panic or non-termination surfaces from it) *)
+Theorem C16_deposit_never_fails : forall (l : list pubkey) (ops : list dop), NoDup l ->
+  Forall (fun e => forall x, fst e <> DFailed x)
+         (drun istate i_step (known_by_cache istate i_step) (di_init l) ops).
+Proof. exact deposit_never_fails. Qed.
+Print Assumptions C16_deposit_never_fails.
+
+(* in every reachable state the cache handle of EVERY context denotes a history that extends that context's own
+   validator registry (what lies beyond belongs to a sibling further along and is filtered by `< valCount`) *)
+Theorem C16_deposit_handle_extends_registry : forall (l : list pubkey) (ops : list dop), NoDup l ->
+  let a := drun_state istate i_step (known_by_cache istate i_step) (di_init l) ops in
+  wf (iheap (d_cache a)) /\
+  forall c r h, nth_error (d_regs a) c = Some r -> nth_error (ivars (d_cache a)) c = Some h ->
+    h < length (iheap (d_cache a)) /\ exists tail, abs (iheap (d_cache a)) h = r ++ tail.
+Proof. exact deposit_handle_extends_registry. Qed.
+Print Assumptions C16_deposit_handle_extends_registry.
+
+Theorem C16_deposit_lookups_agree_with_registry : forall (l : list pubkey) (ops : list dop), NoDup l ->
+  let a := drun_state istate i_step (known_by_cache istate i_step) (di_init l) ops in
+  forall c r h fuel, nth_error (d_regs a) c = Some r -> nth_error (ivars (d_cache a)) c = Some h ->
+    depth (iheap (d_cache a)) h <= fuel ->
+    (forall i, i < length r -> pubkey_at fuel (iheap (d_cache a)) h i = Ok (nth_error r i)) /\
+    (forall i p, nth_error r i = Some p -> validator_index fuel (iheap (d_cache a)) h p = Ok (Some i)).
+Proof. exact deposit_lookups_agree_with_registry. Qed.
+Print Assumptions C16_deposit_lookups_agree_with_registry.
+
+(* a ProcessDeposit that drops AddValidator's result (model `drop_result_step`) breaks it: two siblings add
+   different keys at index 3, the second context answers with the sibling's key and does not find its own *)
+Theorem C16_dropped_handle_refuted :
+  let ops := [DCopy 0; DDeposit 0 8%N; DDeposit 1 9%N] in
+  let a := drun_state istate drop_result_step (known_by_cache istate drop_result_step) (di_init [0; 1; 2]%N) ops in
+  nth_error (d_regs a) 1 = Some [0; 1; 2; 9]%N /\
+  snd (drop_result_step (d_cache a) (OPub 1 3)) = Ok (VPub (Some 8%N)) /\
+  snd (drop_result_step (d_cache a) (OIdx 1 9%N)) = Ok (VIdx None).
+Proof. exact dropped_result_refuted. Qed.
 
 (* Defects of the pinned snapshot (lookup through the parent ignores trustedParentCount), kept as machine-checked
    witnesses about the faithful model of the ORIGINAL code; repaired by fixes/C16-trusted-parent-guard.diff *)
